@@ -1,6 +1,8 @@
-"""C02 configuration: part 0 = the *protocol part* (syncutil.Go / LimitedRegion / Tracker, Model/CopyImpl.v).
-The spec-level part of C02 (CopySpec: link-closure at every instant, retry) is added by another builder
-as an entry of CONFIG["parts"]."""
+"""C02 configuration.  Two parts (bin/check runs both; see CONFIG["parts"]):
+  part 0 "C02"      = the SPEC-LEVEL part: Model/CopyFault.v (CopySpec + fault events), Properties/C02.v,
+                      harness cmd/c02 (fault injection, destination monitor, rerun);
+  part 1 "C02proto" = the PROTOCOL part: Model/CopyImpl.v (syncutil.Go / LimitedRegion / Tracker),
+                      Properties/C02_protocol.v, harness cmd/goimpl."""
 import base64 as _b64
 
 
@@ -12,8 +14,8 @@ def _c02_case(c):
     return {"raw": c}
 
 
-CONFIG = {
-    "name": "C02",
+PROTO = {
+    "name": "C02proto",
     "properties_file": "Properties/C02_protocol.v",
     "proof_files": ["Proofs/CopyImplBase.v", "Proofs/CopyImplInv.v", "Proofs/CopyImplInv2.v", "Proofs/CopyImplLive.v",
                     "Proofs/CopyImplDeadlock.v", "Proofs/CopyImplFault.v", "Proofs/CopyImplTerm.v", "Proofs/CopyImplSucc.v", "Proofs/CopyImplSucc2.v"],
@@ -36,4 +38,49 @@ CONFIG = {
     "level_note": "protocol part only; the spec-level part (CopySpec: destination link-closed at every instant, retry) is added by another builder. semaphore/errgroup/context are hand-modelled; wall-clock boundedness is observed (20 s watchdog), the theorem bounds the number of protocol steps; the trace acceptor infers the unobservable steps inside syncutil.Go (dispatch, skip) from the events around them",
     "technique": "machine-checked proof in Coq (invariants over a labelled transition system: permit conservation, context/ frame tree structure, failure propagation, ownership of in-progress nodes; rank-induction for deadlock freedom; potential function for termination) + trace acceptance of the real syncutil/tracker against the extracted model + differential run of the real CopyGraph + independent oracle",
     "explanation": "theorems about all interleavings/fault placements of the protocol LTS; the extracted LTS must accept the event traces of the real syncutil.Go/LimitedRegion/Tracker driven by a scripted copyGraph.fn; the real CopyGraph/ExtendedCopyGraph runs on the same cases under an independent oracle",
+}
+
+
+def _c02_spec_case(c):
+    # the last field of a case line is rp=J<base64url JSON {stream, genseed, thorough, seed, variant}>
+    for f in c.split(" "):
+        if f.startswith("rp=J"):
+            import json as _json
+            tok = f[4:]
+            pad = "=" * (-len(tok) % 4)
+            d = _json.loads(_b64.urlsafe_b64decode(tok + pad).decode("utf-8"))
+            return {"stream": d["stream"], "genseed": str(d["genseed"]), "thorough": "1" if d.get("thorough") else "0",
+                    "seed": str(d["seed"]), "variant": d.get("variant", "")}
+    return {"raw": c[:2000]}
+
+
+_SPEC_ASSUMPTIONS = [
+    "SPEC-LEVEL PART: the theorems are about the visible-event transition system Model/CopyFault.v = Model/CopySpec.v (per-node phase, destination content, proxy cache, tag) + fault events (error of dst.Exists, src.Fetch, dst.Push/PushReference before or after the content was stored, of a user callback, of a prologue operation Resolve/MapRoot/Predecessors) + cancellation of the context at any moment; [faccepts] quantifies over every interleaving, every number and placement of faults, every cancellation point, every prefix",
+    "what the code does with an error is modelled by hand: the failing task's node becomes Dead and nothing leaves Dead (the deferred close(done) is skipped when err != nil), the waiting parents are abandoned; syncutil.Go returning context.Cause(ctx) is modelled as 'Ret ok needs no cancellation, no prologue failure and no dead node'. Tied to copy.go / extendedcopy.go / limit.go on every run by trace acceptance of the recorded runs (a push of a parent of a dead node, or a successful return after a fault/cancel, is rejected) and by the independent oracle",
+    "ExtendedCopyGraph's outer fan-out is a virtual super-root: a node that is not content (hypothesis ext_ok: no store holds it), initially Waiting, whose successors are the roots; findRoots itself is C03's subject: the roots given to the model are the generator's ground truth (ancestors of the start node without predecessors)",
+    "content.Successors = the generator's edge list (parameter g_succ); standing hypothesis as in C01: during the call the destination is written only by the call itself and never deletes, the source is immutable; mt_consistent (digest-keyed destinations) is a hypothesis of the push-ordering / completion theorems, not of C02_closed_always; the generators of this part produce no two nodes with one digest",
+    "user callbacks return nil or an ordinary error: a user PreCopy answering oras.SkipNode (by design: the node is marked done WITHOUT being transferred, so a caller can make the destination non-closed on purpose) is outside the model and never generated; prepareCopy's own internal use of SkipNode (ReferencePusher root) is modelled",
+    "a failing dst.Push stores the content only when the fault is injected after the real push (stored flag of PuX); a real store failing on its own is assumed not to have stored the content",
+    "faults at registry.Mounter.Mount and at MountFrom/OnMounted are not injected (the model has no fault event for them; dst.Tag of Copy has one: TagX); 'bounded time' is the protocol part's theorem (C02_terminates) plus the 20 s watchdog here; goroutine scheduling: interleavings of visible events are quantified over, internal races are exercised (free-running goroutines with PRNG latencies and slow nodes, PRNG-controlled schedules under testing/synctest with slow nodes released last), not enumerated",
+]
+
+CONFIG = {
+    "name": "C02",
+    "properties_file": "Properties/C02.v",
+    "proof_files": ["Base/Prelude.v", "Proofs/CopySpec.v", "Proofs/CopyFault.v"],
+    "model_files": ["Generated/GC02.v", "Model/CopySpec.v", "Model/CopyTop.v", "Model/CopyFault.v"],
+    "extract": "XC02.v",
+    "ml_main": "c02_main.ml",
+    "harness_test": True,
+    "harness": "c02",
+    "case_to_replay": _c02_spec_case,
+    "timeout_quick": 900,
+    "timeout_thorough": 3600,
+    "timeout_search": 1200,
+    "parts": [PROTO],
+    "assumptions": _SPEC_ASSUMPTIONS + PROTO["assumptions"],
+    "level_text": "SPEC-LEVEL PART: Coq theorems over every trace accepted by the fault-extended copyGraph transition system (all graphs, all link-closed initial destinations, all K, CopyGraph / Copy into Tagger and ReferencePusher destinations / ExtendedCopyGraph as a virtual super-root, all interleavings, any number of faults at Exists / Fetch / Push / Tag (before or after the side effect) / callbacks / prologue, cancellation at any point, every prefix): the destination is link-closed after every event (C02_closed_always, C02_closed_every_prefix); when a push completes -- also one that then reports an error -- every successor of the node is present (C02_push_after_successors); a fault or cancellation anywhere excludes the successful return and taint is never lost (C02_fault_surfaces, C02_fault_taints, C02_taint_persists, C02_tainted_only_error_return); a successful call holds everything reachable from all its roots (C02_success_complete) and so does any successful rerun after any failed / cancelled / abandoned first call (C02_retry_completes; C02_retry_completes_C01 states it with the rerun as a run of C01's fault-free system, to which C01_closure applies); without fault events the extended system accepts exactly the traces of C01/C04's system with the same final state (C02_conservative_over_CopySpec); Examples: a shared-successor DAG whose push fails after storing + rerun, an ExtendedCopyGraph run cancelled in flight + rerun, and the two traces of the classic bugs (parent of a failed node goes on; success after cancellation) are rejected. Tied to the code by trace acceptance of recorded faulty calls and of their fault-free reruns on random and shared-successor DAGs x API x K x stores x fault plans x schedules, and by an independent oracle: destination monitor at every completed push (generator's edge list), closure after every outcome, fired fault => error, watchdog, goroutines back to baseline, rerun completes (presence + bytes + tag). || " + PROTO["level_text"],
+    "level_note": "spec-level part: the error handling of copyGraph.fn (Dead phase, done channel not closed) is hand-modelled and tied by trace acceptance + oracle; no fault events for Mount / MountFrom; stores exercised: memory and OCI layout as source and destination. || " + PROTO["level_note"],
+    "technique": "machine-checked proof in Coq (the C01 invariant of the per-node-phase transition system extended to fault / cancel events; taint monotonicity; closure at every prefix) + constants regenerated from copy.go + trace-acceptance correspondence of faulty runs and reruns + independent monitor oracle || " + PROTO["technique"],
+    "explanation": "spec part: every recorded trace of a faulty CopyGraph/Copy/ExtendedCopyGraph call and of its fault-free rerun must be a run of Model/CopyFault.v with the same return value, destination content and tag; the oracle (destination monitor, closure, fault surfaces, hang, leak, rerun completes) uses the generator's ground truth only || protocol part: " + PROTO["explanation"],
 }
